@@ -17,29 +17,39 @@ use zarrs::storage::{
 };
 
 /// fails the operation whose ordinal equals `fail_at` (1-based; 0 = never); counts operations
-pub struct FaultStore { inner: DynStore, count: AtomicU64, fail_at: AtomicI64 }
+/// and records the operations (kind + key) in the order in which they arrive
+pub struct FaultStore { inner: DynStore, count: AtomicU64, fail_at: AtomicI64, trace: std::sync::Mutex<Vec<(char, String)>> }
 impl FaultStore {
-    fn tick(&self) -> Result<(), StorageError> {
+    fn tick(&self, kind: char, key: &str) -> Result<(), StorageError> {
         let n = self.count.fetch_add(1, Ordering::SeqCst) + 1;
+        self.trace.lock().unwrap().push((kind, key.to_string()));
         if self.fail_at.load(Ordering::SeqCst) == n as i64 { Err(StorageError::Other("injected fault".into())) } else { Ok(()) }
+    }
+    /// the operations since the last call: `g<key>` get / partial get, `s<key>` set, `e<key>` erase, `l<prefix>` list_dir, ...;
+    /// `by_key`: stably sorted by key (the per-chunk closures of a multi-chunk method run in no particular order; the
+    /// order of the operations on ONE key is kept)
+    fn take_trace(&self, by_key: bool) -> String {
+        let mut t: Vec<(char, String)> = std::mem::take(&mut *self.trace.lock().unwrap());
+        if by_key { t.sort_by(|a, b| a.1.cmp(&b.1)); }
+        if t.is_empty() { "-".into() } else { t.iter().map(|(k, key)| format!("{}{}", k, key)).collect::<Vec<_>>().join(",") }
     }
 }
 impl ReadableStorageTraits for FaultStore {
-    fn get(&self, key: &StoreKey) -> Result<MaybeBytes, StorageError> { self.tick()?; self.inner.get(key) }
-    fn get_partial_values_key(&self, key: &StoreKey, r: &[ByteRange]) -> Result<Option<Vec<Bytes>>, StorageError> { self.tick()?; self.inner.get_partial_values_key(key, r) }
-    fn size_key(&self, key: &StoreKey) -> Result<Option<u64>, StorageError> { self.tick()?; self.inner.size_key(key) }
+    fn get(&self, key: &StoreKey) -> Result<MaybeBytes, StorageError> { self.tick('g', key.as_str())?; self.inner.get(key) }
+    fn get_partial_values_key(&self, key: &StoreKey, r: &[ByteRange]) -> Result<Option<Vec<Bytes>>, StorageError> { self.tick('g', key.as_str())?; self.inner.get_partial_values_key(key, r) }
+    fn size_key(&self, key: &StoreKey) -> Result<Option<u64>, StorageError> { self.tick('z', key.as_str())?; self.inner.size_key(key) }
 }
 impl WritableStorageTraits for FaultStore {
-    fn set(&self, key: &StoreKey, value: Bytes) -> Result<(), StorageError> { self.tick()?; self.inner.set(key, value) }
-    fn set_partial_values(&self, kov: &[StoreKeyOffsetValue]) -> Result<(), StorageError> { self.tick()?; self.inner.set_partial_values(kov) }
-    fn erase(&self, key: &StoreKey) -> Result<(), StorageError> { self.tick()?; self.inner.erase(key) }
-    fn erase_prefix(&self, p: &StorePrefix) -> Result<(), StorageError> { self.tick()?; self.inner.erase_prefix(p) }
+    fn set(&self, key: &StoreKey, value: Bytes) -> Result<(), StorageError> { self.tick('s', key.as_str())?; self.inner.set(key, value) }
+    fn set_partial_values(&self, kov: &[StoreKeyOffsetValue]) -> Result<(), StorageError> { self.tick('w', kov.first().map(|k| k.key().as_str()).unwrap_or(""))?; self.inner.set_partial_values(kov) }
+    fn erase(&self, key: &StoreKey) -> Result<(), StorageError> { self.tick('e', key.as_str())?; self.inner.erase(key) }
+    fn erase_prefix(&self, p: &StorePrefix) -> Result<(), StorageError> { self.tick('x', p.as_str())?; self.inner.erase_prefix(p) }
 }
 impl ListableStorageTraits for FaultStore {
-    fn list(&self) -> Result<StoreKeys, StorageError> { self.tick()?; self.inner.list() }
-    fn list_prefix(&self, p: &StorePrefix) -> Result<StoreKeys, StorageError> { self.tick()?; self.inner.list_prefix(p) }
-    fn list_dir(&self, p: &StorePrefix) -> Result<StoreKeysPrefixes, StorageError> { self.tick()?; self.inner.list_dir(p) }
-    fn size_prefix(&self, p: &StorePrefix) -> Result<u64, StorageError> { self.tick()?; self.inner.size_prefix(p) }
+    fn list(&self) -> Result<StoreKeys, StorageError> { self.tick('L', "")?; self.inner.list() }
+    fn list_prefix(&self, p: &StorePrefix) -> Result<StoreKeys, StorageError> { self.tick('P', p.as_str())?; self.inner.list_prefix(p) }
+    fn list_dir(&self, p: &StorePrefix) -> Result<StoreKeysPrefixes, StorageError> { self.tick('l', p.as_str())?; self.inner.list_dir(p) }
+    fn size_prefix(&self, p: &StorePrefix) -> Result<u64, StorageError> { self.tick('Z', p.as_str())?; self.inner.size_prefix(p) }
 }
 
 type Snap = BTreeMap<String, Vec<u8>>;
@@ -49,7 +59,7 @@ fn restore(s: &DynStore, snap: &Snap) { s.erase_prefix(&StorePrefix::root()).unw
 pub fn exec_op(ctx: &mut ArrCtx, verb: &str, m: &BTreeMap<String, String>, line: &str) -> String {
     if verb != "fault_sweep" && verb != "fault_sweep_read" && verb != "fault_meta" { return crate::arr::exec_op(ctx, verb, m); }
     let base: DynStore = ctx.store.store.clone();
-    let fs = Arc::new(FaultStore { inner: base.clone(), count: AtomicU64::new(0), fail_at: AtomicI64::new(0) });
+    let fs = Arc::new(FaultStore { inner: base.clone(), count: AtomicU64::new(0), fail_at: AtomicI64::new(0), trace: std::sync::Mutex::new(vec![]) });
     let fsd: DynStore = fs.clone();
     let array = match Array::open(fsd.clone(), &ctx.path) { Ok(a) => Arc::new(a), Err(_) => return "err-open".into() };
     let mut opts = ctx.opts.clone();
@@ -62,9 +72,10 @@ pub fn exec_op(ctx: &mut ArrCtx, verb: &str, m: &BTreeMap<String, String>, line:
         "fault_sweep" => {
             let snap0 = snapshot(&base);
             // fault-free run: count operations, record the intended final state
-            fs.count.store(0, Ordering::SeqCst); fs.fail_at.store(0, Ordering::SeqCst);
+            fs.count.store(0, Ordering::SeqCst); fs.fail_at.store(0, Ordering::SeqCst); let _ = fs.take_trace(false);
             let r0 = crate::arr::exec_op(&mut mk_ctx(fsd.clone(), array.clone()), &inner_verb, &mm);
             let n = fs.count.load(Ordering::SeqCst);
+            let t0 = fs.take_trace(true);
             let snap1 = snapshot(&base);
             let (mut ok_with_fault, mut panics, mut torn, mut retry_diff) = (0, 0, 0, 0);
             for k in 1..=n {
@@ -82,12 +93,13 @@ pub fn exec_op(ctx: &mut ArrCtx, verb: &str, m: &BTreeMap<String, String>, line:
                 if snapshot(&base) != snap1 { retry_diff += 1; }
             }
             restore(&base, &snap1);
-            format!("{} faults n={} ok_with_fault={} panics={} torn={} retry_diff={}", r0, n, ok_with_fault, panics, torn, retry_diff)
+            format!("{} faults n={} ok_with_fault={} panics={} torn={} retry_diff={} t={}", r0, n, ok_with_fault, panics, torn, retry_diff, t0)
         }
         "fault_sweep_read" => {
-            fs.count.store(0, Ordering::SeqCst); fs.fail_at.store(0, Ordering::SeqCst);
+            fs.count.store(0, Ordering::SeqCst); fs.fail_at.store(0, Ordering::SeqCst); let _ = fs.take_trace(false);
             let r0 = crate::arr::exec_op(&mut mk_ctx(fsd.clone(), array.clone()), &inner_verb, &mm);
             let n = fs.count.load(Ordering::SeqCst);
+            let t0 = fs.take_trace(true);
             let (mut ok_with_fault, mut panics, mut cached_wrong) = (0, 0, 0);
             for k in 1..=n {
                 fs.count.store(0, Ordering::SeqCst); fs.fail_at.store(k as i64, Ordering::SeqCst);
@@ -111,7 +123,7 @@ pub fn exec_op(ctx: &mut ArrCtx, verb: &str, m: &BTreeMap<String, String>, line:
                 }
             }
             fs.fail_at.store(0, Ordering::SeqCst);
-            format!("{} faults n={} ok_with_fault={} panics={} cached_wrong={}", r0, n, ok_with_fault, panics, cached_wrong)
+            format!("{} faults n={} ok_with_fault={} panics={} cached_wrong={} t={}", r0, n, ok_with_fault, panics, cached_wrong, t0)
         }
         _ => {
             // metadata / group methods under faults (Zarr V2 nodes, whose attributes live under a second key, included)
@@ -135,16 +147,18 @@ pub fn exec_op(ctx: &mut ArrCtx, verb: &str, m: &BTreeMap<String, String>, line:
             let mut out = vec![];
             for which in ["store_metadata", "open", "open_v2", "group", "erase_metadata"] {
                 restore(&base, &snap0);
-                fs.count.store(0, Ordering::SeqCst); fs.fail_at.store(0, Ordering::SeqCst);
+                fs.count.store(0, Ordering::SeqCst); fs.fail_at.store(0, Ordering::SeqCst); let _ = fs.take_trace(false);
                 let ok0 = std::panic::catch_unwind(std::panic::AssertUnwindSafe(|| run(which))).unwrap_or(false);
                 let n = fs.count.load(Ordering::SeqCst);
+                // metadata / node methods are sequential: the trace is kept in the order of arrival
+                let t0 = fs.take_trace(false);
                 let (mut okf, mut panics) = (0, 0);
                 for k in 1..=n {
                     restore(&base, &snap0);
                     fs.count.store(0, Ordering::SeqCst); fs.fail_at.store(k as i64, Ordering::SeqCst);
                     match std::panic::catch_unwind(std::panic::AssertUnwindSafe(|| run(which))) { Ok(true) => okf += 1, Ok(false) => {}, Err(_) => panics += 1 }
                 }
-                out.push(format!("{}:{}:n={}:ok_with_fault={}:panics={}", which, ok0, n, okf, panics));
+                out.push(format!("{}:{}:n={}:ok_with_fault={}:panics={}:t={}", which, ok0, n, okf, panics, t0));
             }
             fs.fail_at.store(0, Ordering::SeqCst);
             restore(&base, &snap0);
